@@ -79,7 +79,7 @@ func genSession(g *genCtx) {
 			// several outstanding requests answered in any order
 			nr := 60
 			if g.thorough() {
-				nr = 1500
+				nr = 8000
 			}
 			for i := 0; i < nr; i++ {
 				k := 2 + r.Intn(3)
